@@ -19,7 +19,7 @@ TReset == More /\ Ev.e = "Reset" /\ Consume
 TPool == More /\ Ev.e = "Pool" /\ Consume /\ deque' = (Ev.deque = 1) /\ UNCHANGED <<q, pend>>
 TCall == More /\ Ev.e = "Call" /\ Consume
          /\ CASE Ev.op = "push" -> CallPush(Ev.t, Ev.us, Ev.hd = 1)
-              [] Ev.op = "pop" -> CallPop(Ev.t, Ev.k, Ev.tl = 1)
+              [] Ev.op = "pop" -> CallPopL(Ev.t, Ev.k, Ev.tl = 1, "long" \in DOMAIN Ev)
               [] Ev.op = "remove" -> CallRemove(Ev.t, Ev.u)
 TRet == More /\ Ev.e = "Ret" /\ Consume /\ Ret(Ev.t, Ev.r)
 \* size and emptiness are exact whenever the pool is quiescent
